@@ -293,6 +293,10 @@ def positive_length_rule(ctx: Ctx, rid: str):
 
 
 def run_extra(ctx: Ctx):
+    # ---------------------------------------------------------------- R06.12 what is left of a slot takes the head set aside for a mid-slot
+    # start into account on every path: otherwise the task books seconds that lie before its reported start (= C01 R01.2)
+    from .c01 import remaining_seconds_rule
+    remaining_seconds_rule(ctx, "R06.12")
     # ---------------------------------------------------------------- R06.8 answers never come from state that outlives the question
     from .common import process_state_rule
     process_state_rule(ctx, "R06.8", [ctx.repo.func("Project.schedule")],
